@@ -10,7 +10,7 @@ INC = os.path.join(V, "seeded", "_incoming")
 
 def sh(cmd, cwd=None, timeout=900):
     try:
-        p = subprocess.run(cmd, cwd=cwd, shell=isinstance(cmd, str), capture_output=True, text=True, timeout=timeout)
+        p = subprocess.run(cmd, cwd=cwd, shell=isinstance(cmd, str), capture_output=True, text=True, errors="replace", timeout=timeout)
         return p.returncode, (p.stdout + p.stderr)[-1500:]
     except subprocess.TimeoutExpired:
         return 124, "timeout"
